@@ -155,7 +155,7 @@ class C04(Oracle):
                     self.fail("server-intervals-overlap", "node %s server %s: ind %s [%r,%r] overlaps ind %s [%r,%r]" % (key[0], key[1], a[2], a[0], a[1], b[2], b[0], b[1]))
         # utilisation: only for unsplit runs without any pre-emption
         f = R.feats
-        if op[0] != "cap" and len(R.S["plan"]) == 1 and "preempt" not in f and "schedpre" not in f and "slotpre" not in f and not R.S.get("exact"):
+        if op[0] != "cap" and R.seg == len(R.S["plan"]) and "preempt" not in f and "schedpre" not in f and "slotpre" not in f and not R.S.get("exact"):
             if op[0] == "time":
                 tend = float(op[1])
             else:
